@@ -257,6 +257,47 @@ fn run_on<C: DateRoll + PyCalLayer>(ctx: &mut Ctx, cal: &C, spec: &CalSpec, star
                 }
             }
         }
+        // ---------------- bus_date_range with an end point that is NOT a business day: either refused, or exactly the
+        // business days of the calendar-date range (never a list holding a non-business day)
+        {
+            let span = rng.range_i(1, 60);
+            let (a, b) = if bus {
+                // business start, the nearest non-business day at or after start + span as end
+                match (z + span..z + span + 30).find(|c| bits.inside(*c) && !bits.is_bus(*c)) {
+                    Some(e) => (z, e),
+                    None => (z, z),
+                }
+            } else {
+                // non-business start, a business end
+                match bits.scan(z + span, 1, false) {
+                    Some(e) => (z, e),
+                    None => (z, z),
+                }
+            };
+            if a != b && bits.inside(b) {
+                let got = guarded(|| cal.bus_date_range(&to_ndt(a), &to_ndt(b)).map_err(|_| ()));
+                ctx.eval(1);
+                ctx.asserted(1);
+                ctx.class(if bus { "bus_date_range:non-business-end" } else { "bus_date_range:non-business-start" });
+                let want: Vec<i64> = (a..=b).filter(|c| bits.is_bus(*c)).collect();
+                match got {
+                    Caught::Ok(Err(())) => {}
+                    Caught::Ok(Ok(v)) if v.iter().map(from_ndt).collect::<Vec<_>>() == want => {}
+                    Caught::Ok(Ok(v)) => {
+                        let listed_non_business: Vec<String> = v.iter().map(from_ndt).filter(|c| !bits.is_bus(*c)).take(4).map(fmt_z).collect();
+                        ctx.violation(
+                            &format!("C05|bus_date_range|{}", if bus { "non-business-end" } else { "non-business-start" }),
+                            json!({"calendar": sd, "start": fmt_z(a), "end": fmt_z(b), "observed_len": v.len(), "business_days_in_range": want.len(), "non_business_days_listed": listed_non_business}),
+                        );
+                        return;
+                    }
+                    Caught::Panic { loc, msg } => {
+                        on_panic(ctx, "bus_date_range", &loc, &msg, json!({"calendar": sd, "start": fmt_z(a), "end": fmt_z(b)}));
+                        return;
+                    }
+                }
+            }
+        }
         // ---------------- bus_date_range on business end points
         if bus {
             let span = rng.range_i(0, 150);
@@ -306,7 +347,7 @@ impl Prop for C05 {
         tier.pick(12, 16)
     }
     fn required_classes(&self, _tier: Tier) -> Vec<String> {
-        let mut v = vec!["start:business".to_string(), "start:non-business".to_string(), "settlement-moved-backward".into(), "settlement-moved-forward".into(), "bus_date_range:span".into(), "bus_date_range:reversed".into()];
+        let mut v = vec!["start:business".to_string(), "start:non-business".to_string(), "settlement-moved-backward".into(), "settlement-moved-forward".into(), "bus_date_range:span".into(), "bus_date_range:reversed".into(), "bus_date_range:non-business-end".into(), "bus_date_range:non-business-start".into()];
         for c in ["n=-128", "n=127", "n=0", "n=1", "n=-1", "n<0", "n>0"] {
             v.push(format!("add_bus_days:{}:settle=false", c));
             v.push(format!("add_bus_days:{}:settle=true", c));
@@ -327,12 +368,12 @@ impl Prop for C05 {
         tier.pick(2_000_000, 50_000_000)
     }
     fn rule(&self) -> String {
-        "The C04 calendar zoo (built-ins, named combinations, random Cal / UnionCal with hostile holiday sets and settlement calendars). For every chosen start date (business and non-business): ALL 256 values of the i8 day count x both settlement flags for add_bus_days (incl. inverse without settlement, rejection of non-business starts), lag and add_days (modifier cycling over all 5), plus bus_date_range to a business end point up to 150 days later. Oracle: rank/select over the bus/settle bit-vector. A quarter of add_bus_days calls run through the probing proxy (10^6 probe budget). distinct_nontrivial = distinct (calendar, business start, n, flag) judged. Eligible days (business / settlement) are derived from each calendar's description - week mask, holiday list, members and settlement members - and the object's own predicates must agree with that before any result is judged; one calendar in four is exercised inside the CalType container.".into()
+        "The C04 calendar zoo (built-ins, named combinations, random Cal / UnionCal with hostile holiday sets and settlement calendars). For every chosen start date (business and non-business): ALL 256 values of the i8 day count x both settlement flags for add_bus_days (incl. inverse without settlement, rejection of non-business starts), lag and add_days (modifier cycling over all 5), plus bus_date_range to a business end point up to 150 days later and with a non-business start or end point (refused, or exactly the business days). Oracle: rank/select over the bus/settle bit-vector. A quarter of add_bus_days calls run through the probing proxy (10^6 probe budget). distinct_nontrivial = distinct (calendar, business start, n, flag) judged. Eligible days (business / settlement) are derived from each calendar's description - week mask, holiday list, members and settlement members - and the object's own predicates must agree with that before any result is judged; one calendar in four is exercised inside the CalType container.".into()
     }
     fn assumptions(&self) -> Vec<String> {
         vec![
             "lag(0) on a non-business day with settlement enforced: the first business day after, or its settled successor (the statement is silent)".into(),
-            "bus_date_range is asserted for business end points only".into(),
+            "bus_date_range with a non-business end point may be refused; if it answers, the list must be exactly the business days of the range".into(),
         ]
     }
     fn run_case(&mut self, ctx: &mut Ctx, phase: usize, idx: u64, rng: &mut Rng) {
